@@ -258,6 +258,9 @@ var goChunks = []string{
 	"// " + gen.CollisionRunes + " tail of the comment",
 	"var greeting = \"" + gen.CollisionRunes + "\" // č 上 😊",
 	"var raw2 = `\nĊ first\nč second 不\n`",
+	// the keyword alone on a line, or followed by a tab, inside a comment / a raw string
+	"/*\nA template starts with the keyword\n@goht\nfollowed by a Go signature.\n*/",
+	"var doc2 = `\n@goht\tName()\n@media print\n@\n`",
 }
 
 func (c *Ctx) genC11(i int, risky bool) c11File {
